@@ -48,6 +48,25 @@ check(
     "Relaxations are decided on (start parameter, history) only: the documented '=None' of the function hop, P13 (argparse zero values / single-member Literal) and P14 (Optional widening after a function hop); names and order are never relaxed.",
 )
 
+check(
+    "C04",
+    "Hypothesis-generated interfaces x emitter/style matrix; differential oracle against CPython (compile/exec, inspect.signature, argparse) plus unparse/re-parse identity",
+    "Generated-input search over the executable domain: every emitted class / function / argparse function is compiled, executed in a scratch namespace and interrogated with __annotations__, inspect.signature and a real ArgumentParser (option per parameter, type conversion, choices, default, required, help, parse_args with only required options).",
+    "exec of emitted code is confined to our own literal vocabulary; BaseModel is stubbed with object; P13's argparse classes (bare bool, single-member Literal) are relaxed narrowly.",
+)
+check(
+    "C05",
+    "Hypothesis-generated table descriptions x variant/style/force_pk_id matrix; inverse-pair oracle per variant plus cross-variant agreement and primary-key count on the re-read AST",
+    "Generated-input search over SQL-representable interfaces; each of the three emissions is rendered, re-read and parsed, compared column by column (names, order, types incl. Enum members as a set, nullability, defaults, descriptions with PK/FK markers) and with each other; exactly one primary_key=True per emission.",
+    "force_pk_id=True with a user column literally named `id` is treated as a generator-made collision and skipped (counted).",
+)
+check(
+    "C06",
+    "Hypothesis-generated interfaces; jsonschema Draft 2020-12 meta-schema validator as reference + required/Optional, default-validates, pattern membership (positive and three negative generators) and inverse-pair oracle",
+    "Generated-input search over JSON-representable interfaces (0..8 params, with/without prose and return entry); the emitted schema is serialised, validated against the meta-schema, checked for internal consistency and parsed back.",
+    "Only the *superstring* negative generator is relaxed (P15: unanchored alternation); disjoint strings and proper prefixes stay strict.",
+)
+
 NOT_YET = "check not built yet in this round (work in progress; DESIGN.md section 4 has the plan)"
 
 
